@@ -37,7 +37,9 @@ FirstPES(i, npk, pid) ==
   IN IF c = {} THEN npk + 1 ELSE CHOOSE k \in c : \A j \in c : k <= j
 
 OnData(s, e, i) ==
-  IF e.err # "nil" THEN s                       \* rejected / failed call: not counted either way
+  IF e.err # "nil"                              \* rejected / failed call: not counted either way - unless it did emit the tables before
+  THEN LET hasBoth == (\E k \in 1..e.npk : Hdr(Trace[i+k].b).pid = PATPID) /\ (\E k \in 1..e.npk : Hdr(Trace[i+k].b).pid = PMTPID)
+       IN [s EXCEPT !.since = IF hasBoth THEN 0 ELSE s.since]       \* failing (e.g. an adaptation field too large): an automatic emission all the same
   ELSE LET f == FirstPES(i, e.npk, e.pid)
            hasPat == \E k \in 1..(f-1) : Hdr(Trace[i+k].b).pid = PATPID
            hasPmt == \E k \in 1..(f-1) : Hdr(Trace[i+k].b).pid = PMTPID
